@@ -2,6 +2,10 @@ let () =
   let sub = if Array.length Sys.argv > 1 then Sys.argv.(1) else "" in
   let f = match sub with
     | "sparseset" -> Sparseset_cmd.run_case
+    | "prop" -> Plevel_cmd.run_prop_full
+    | "solve" -> Plevel_cmd.run_solve_full
+    | "ctx" -> Plevel_cmd.run_ctx
+    | "view" -> Plevel_cmd.run_view
     | _ -> prerr_endline ("unknown sub-command " ^ sub); exit 2 in
   (try
      while true do
